@@ -477,3 +477,378 @@ Proof.
     + rewrite Epath. exact Hv.
     + rewrite Epath. exact Hedge.
 Qed.
+
+(** * One component *)
+
+Definition cyc_of (comp : list nat) (l : nat) : list nat :=
+  filter (fun u => nthn comp u =? l) (seq 0 (length comp)).
+Definition subroots_of (comp : list nat) (dist : list Z) (l : nat) : list nat :=
+  filter (fun u => (nthz dist u =? zmin_list (map (nthz dist) (cyc_of comp l)))%Z) (cyc_of comp l).
+
+Lemma bc_component_unfold g comp dist l :
+  bc_component g comp dist l =
+  ofold (fun ga s => bc_visit_dir (S (length g)) (cyc_of comp l) ga s [s]) (rev (subroots_of comp dist l)) (Some g).
+Proof. reflexivity. Qed.
+
+Lemma cyc_of_In comp l u : In u (cyc_of comp l) <-> u < length comp /\ nthn comp u = l.
+Proof. unfold cyc_of. rewrite filter_In, in_seq, Nat.eqb_eq. intuition lia. Qed.
+
+Lemma subroots_cyc comp dist l s : In s (subroots_of comp dist l) -> In s (cyc_of comp l).
+Proof. unfold subroots_of. rewrite filter_In. tauto. Qed.
+
+Lemma fold_zmin_spec : forall (t : list Z) (x : Z),
+  let m := fold_left Z.min t x in (m = x \/ In m t) /\ (m <= x)%Z /\ forall y, In y t -> (m <= y)%Z.
+Proof.
+  induction t as [|a t IH]; intros x; simpl.
+  - split; auto. split; [lia|]. intros y [].
+  - specialize (IH (Z.min x a)). cbv zeta in IH. destruct IH as [A [B C]]. split; [|split].
+    + destruct A as [A|A]; [|auto]. destruct (Z.min_spec x a) as [[_ E]|[_ E]]; [left | right; left]; congruence.
+    + lia.
+    + intros y [Hy|Hy]; [subst; lia | auto].
+Qed.
+
+Lemma zmin_list_spec (l : list Z) : l <> [] -> In (zmin_list l) l /\ forall y, In y l -> (zmin_list l <= y)%Z.
+Proof.
+  destruct l as [|x t]; [congruence|]. intros _. unfold zmin_list.
+  destruct (fold_zmin_spec t x) as [A [B C]]. cbv zeta in A, B, C. split.
+  - destruct A as [A|A]; [left; auto | right; auto].
+  - intros y [Hy|Hy]; [subst; auto | auto].
+Qed.
+
+(** The minimum is attained: there is a subroot; every subroot is at most as far as every member. *)
+Lemma subroots_nonempty comp dist l : cyc_of comp l <> [] -> subroots_of comp dist l <> [].
+Proof.
+  intros Hne. assert (Hm : map (nthz dist) (cyc_of comp l) <> []) by (destruct (cyc_of comp l); [congruence | discriminate]).
+  destruct (zmin_list_spec _ Hm) as [A _]. apply in_map_iff in A. destruct A as [u [Eu Hu]].
+  intros E. assert (Hin : In u (subroots_of comp dist l)).
+  { unfold subroots_of. apply filter_In. split; auto. apply Z.eqb_eq. exact Eu. }
+  rewrite E in Hin. destruct Hin.
+Qed.
+
+Lemma subroots_min comp dist l s x :
+  In s (subroots_of comp dist l) -> In x (cyc_of comp l) -> (nthz dist s <= nthz dist x)%Z.
+Proof.
+  unfold subroots_of. rewrite filter_In. intros [Hs E] Hx. apply Z.eqb_eq in E. rewrite E.
+  assert (Hm : map (nthz dist) (cyc_of comp l) <> []) by (destruct (cyc_of comp l); [destruct Hx | discriminate]).
+  apply (zmin_list_spec _ Hm). apply in_map. exact Hx.
+Qed.
+
+Definition cframe (cyc : list nat) (S : nat -> Prop) (g h : graph) : Prop :=
+  sub h g /\
+  (forall u v, edge g u v -> ~ edge h u v -> In u cyc /\ In v cyc) /\
+  (forall x, reachS (Ein cyc g) S x -> reachS (Ein cyc h) S x).
+
+Lemma good_single cyc g s : In s cyc -> good cyc g [s] s.
+Proof.
+  intros Hs. split; [discriminate|]. split; [reflexivity|]. split; [constructor; [intros []|constructor]|].
+  split; [intros x [Hx|[]]; subst; auto | simpl; auto].
+Qed.
+
+Lemma comp_frame g comp dist l h :
+  bc_component g comp dist l = Some h ->
+  cframe (cyc_of comp l) (fun s => In s (subroots_of comp dist l)) g h.
+Proof.
+  rewrite bc_component_unfold. intros H.
+  refine (ofold_inv _ (cframe (cyc_of comp l) (fun s => In s (subroots_of comp dist l)) g) _ g h _ _ H).
+  - split; [apply sub_refl|]. split; [intros u v A B; contradiction | auto].
+  - intros x s y Hs [Sx [Fx Rx]] Hy. apply in_rev in Hs.
+    pose proof (good_single (cyc_of comp l) x s (subroots_cyc _ _ _ _ Hs)) as Hg.
+    destruct (visit_frame _ _ _ _ _ _ Hg Hy) as [Sy [Fy Ry]].
+    split; [eapply sub_trans; eauto|]. split.
+    + intros u v A B. destruct (edge_dec x u v) as [Y|N]; [|apply Fx; auto].
+      destruct (Fy u v Y B) as [_ [E2 E3]]. auto.
+    + intros z Hz. apply Ry; [exact Hs|]. apply Rx. exact Hz.
+Qed.
+
+Lemma comp_total g comp dist l :
+  length comp = length g -> exists h, bc_component g comp dist l = Some h.
+Proof.
+  intros Hlen. rewrite bc_component_unfold.
+  apply (ofold_total _ (fun a : graph => length a = length g)); [reflexivity|].
+  intros x s Hs Lx. apply in_rev in Hs. apply subroots_cyc in Hs.
+  destruct (visit_total (cyc_of comp l) (S (length g)) x s [s]) as [y Hy].
+  - apply good_single. exact Hs.
+  - intros z Hz. apply cyc_of_In in Hz. lia.
+  - simpl. lia.
+  - exists y. split; auto. apply visit_sub in Hy. destruct Hy as [Ly _]. congruence.
+Qed.
+
+(** A graph in which no simple path from [s] (inside [cyc]) has an edge back into itself, and in which
+    [s] reaches a closed walk inside [cyc], is contradictory. *)
+Lemma no_back_edge_no_cycle (h : graph) (cyc : list nat) (s : nat) (c : list nat) :
+  In s cyc ->
+  (forall ext v, chain (edge h) ([s] ++ ext) -> NoDup ([s] ++ ext) -> (forall x, In x ext -> In x cyc) ->
+                 In v ([s] ++ ext) -> In v cyc -> ~ edge h (last ([s] ++ ext) 0) v) ->
+  dcycle h c -> (forall x, In x c -> In x cyc) -> reach (Ein cyc h) s (hd 0 c) -> False.
+Proof.
+  intros Hs NB [Hne [Hnd Hch]] Hc Hr. destruct c as [|x0 t]; [congruence|]. cbn [hd] in *.
+  destruct (reach_spath _ _ _ Hr) as [p [P1 [P2 [P3 [P4 P5]]]]].
+  destruct p as [|p0 p']; [congruence|]. cbn [hd] in P1. subst p0.
+  assert (Hp_cyc : forall z, In z (s :: p') -> In z cyc).
+  { intros z [Hz|Hz]; [subst; auto|]. eapply (chain_targets (Ein cyc h) (fun b => In b cyc)); eauto.
+    intros a b [_ [_ Hb]]. exact Hb. }
+  assert (Hp_ch : chain (edge h) (s :: p')) by (eapply chain_mono; [|exact P5]; intros a b [A _]; exact A).
+  set (W := (s :: p') ++ (t ++ [x0])).
+  assert (HW : chain (edge h) W).
+  { unfold W. apply chain_app. split; auto.
+    change ((x0 :: t) ++ [x0]) with ([x0] ++ (t ++ [x0])) in Hch. apply chain_app in Hch.
+    destruct Hch as [_ [Hc2 Hlink]]. split; auto. intros _ Hne2. rewrite P2. apply Hlink; [discriminate | exact Hne2]. }
+  assert (HWc : forall z, In z W -> In z cyc).
+  { intros z Hz. unfold W in Hz. apply in_app_or in Hz. destruct Hz as [Hz|Hz]; auto.
+    apply Hc. apply in_app_or in Hz. destruct Hz as [Hz|[Hz|[]]]; [right; auto | left; auto]. }
+  destruct (first_repeat W) as [HndW|[q [v [rest [EW [Hq Hv]]]]]].
+  - unfold W in HndW. eapply (NoDup_app_disjoint (s :: p') (t ++ [x0]) x0); eauto.
+    + rewrite <- P2. apply last_In. discriminate.
+    + apply in_or_app. right. left. reflexivity.
+  - destruct q as [|q0 ext]; [destruct Hv|].
+    assert (q0 = s) by (unfold W in EW; simpl in EW; congruence). subst q0.
+    rewrite EW in HW. apply chain_app in HW. destruct HW as [Hq_ch [_ Hlink]].
+    apply (NB ext v); auto.
+    + intros z Hz. apply HWc. rewrite EW. apply in_or_app. left. right. exact Hz.
+    + apply HWc. rewrite EW. apply in_or_app. right. left. reflexivity.
+    + apply Hlink; discriminate.
+Qed.
+
+(** After the exploration from the first subroot, the component (whose internal edges were intact and
+    which was strongly connected inside itself) contains no cycle; later explorations only remove edges. *)
+Lemma comp_acyclic g comp dist l h :
+  cyc_of comp l <> [] ->
+  (forall s x, In s (cyc_of comp l) -> In x (cyc_of comp l) -> reach (Ein (cyc_of comp l) g) s x) ->
+  bc_component g comp dist l = Some h ->
+  forall c, dcycle h c -> (forall x, In x c -> In x (cyc_of comp l)) -> False.
+Proof.
+  intros Hne Hconn H c Hcy Hc. rewrite bc_component_unfold in H.
+  set (cyc := cyc_of comp l) in *.
+  pose proof (subroots_nonempty comp dist l Hne) as Hsr.
+  destruct (rev (subroots_of comp dist l)) as [|s1 rest] eqn:Er.
+  { apply Hsr. rewrite <- (rev_involutive (subroots_of comp dist l)), Er. reflexivity. }
+  assert (Hs1 : In s1 cyc).
+  { apply (subroots_cyc comp dist l). apply in_rev. rewrite Er. left. reflexivity. }
+  rewrite ofold_cons in H. destruct (bc_visit_dir (S (length g)) cyc g s1 [s1]) as [h1|] eqn:E1;
+    [|rewrite ofold_none in H; discriminate].
+  assert (Sh : sub h h1).
+  { refine (ofold_inv _ (fun x => sub x h1) _ h1 h (sub_refl h1) _ H).
+    intros x v y _ Hx Hy. apply visit_sub in Hy. eapply sub_trans; eauto. }
+  destruct (visit_frame _ _ _ _ _ _ (good_single cyc g s1 Hs1) E1) as [_ [_ R1]].
+  assert (Hcy1 : dcycle h1 c) by (eapply simple_cycle_ext; [|exact Hcy]; apply Sh).
+  assert (Hc0 : In (hd 0 c) cyc).
+  { apply Hc. destruct Hcy as [Hn _]. destruct c; [congruence | left; reflexivity]. }
+  apply (no_back_edge_no_cycle h1 cyc s1 c Hs1); auto.
+  - intros ext v A B C D F. 
+    exact (visit_complete cyc _ g s1 [s1] h1 ltac:(discriminate) eq_refl E1 h1 (sub_refl h1) ext A B C v D F).
+  - destruct (R1 (eq s1) (hd 0 c) eq_refl) as [a [Ea Ra]].
+    + exists s1. split; auto.
+    + subst a. exact Ra.
+Qed.
+
+(** * The loop over the labels of the components with more than one node *)
+
+Definition labels_of (comp : list nat) : list nat := filter (fun l => 1 <? count comp l) (np_unique comp).
+Definition lstep (comp : list nat) (dist : list Z) : graph -> nat -> option graph :=
+  fun ga l => bc_component ga comp dist l.
+
+Lemma labels_of_NoDup comp : NoDup (labels_of comp).
+Proof. unfold labels_of, np_unique. apply NoDup_filter. apply NoDup_filter. apply seq_NoDup. Qed.
+
+Lemma labels_of_In comp l : In l (labels_of comp) <-> In l comp /\ 1 < count comp l.
+Proof. unfold labels_of. rewrite filter_In, np_unique_In, Nat.ltb_lt. tauto. Qed.
+
+(** Only edges between two nodes of the same processed label disappear. *)
+Definition lframe (comp : list nat) (L : list nat) (a b : graph) : Prop :=
+  sub b a /\
+  forall u v, edge a u v -> ~ edge b u v ->
+    u < length comp /\ v < length comp /\ nthn comp u = nthn comp v /\ In (nthn comp u) L.
+
+Lemma labels_frame comp dist L : forall a b, ofold (lstep comp dist) L (Some a) = Some b -> lframe comp L a b.
+Proof.
+  intros a b H. refine (ofold_inv _ (lframe comp L a) _ a b _ _ H).
+  - split; [apply sub_refl|]. intros u v A B. contradiction.
+  - intros x l y Hl [Sx Fx] Hy. unfold lstep in Hy. destruct (comp_frame _ _ _ _ _ Hy) as [Sy [Fy _]].
+    split; [eapply sub_trans; eauto|]. intros u v A B.
+    destruct (edge_dec x u v) as [Y|N]; [|apply Fx; auto].
+    destruct (Fy u v Y B) as [Hu Hv]. apply cyc_of_In in Hu, Hv. destruct Hu as [Hu Eu], Hv as [Hv Ev].
+    split; auto. split; auto. split; [congruence|]. rewrite Eu. exact Hl.
+Qed.
+
+Lemma labels_total comp dist L a :
+  length comp = length a -> exists b, ofold (lstep comp dist) L (Some a) = Some b.
+Proof.
+  intros Hlen. apply (ofold_total _ (fun x : graph => length x = length a)); [reflexivity|].
+  intros x l _ Lx. unfold lstep. destruct (comp_total x comp dist l) as [y Hy]; [congruence|].
+  exists y. split; auto. destruct (comp_frame _ _ _ _ _ Hy) as [[Ly _] _]. congruence.
+Qed.
+
+(** The run around the processing of one label [l]: before it and after it the edges inside the
+    component of [l] are not touched. *)
+Lemma labels_run_split comp dist labels g0 h l :
+  NoDup labels -> In l labels -> ofold (lstep comp dist) labels (Some g0) = Some h ->
+  exists ga gb,
+    sub ga g0 /\ (forall u v, Ein (cyc_of comp l) g0 u v -> Ein (cyc_of comp l) ga u v) /\
+    bc_component ga comp dist l = Some gb /\
+    sub h gb /\ (forall u v, Ein (cyc_of comp l) gb u v -> Ein (cyc_of comp l) h u v).
+Proof.
+  intros Hnd Hl H. destruct (in_split _ _ Hl) as [L1 [L2 EL]]. subst labels.
+  destruct (ofold_split _ _ _ _ _ _ H) as [ga [gb [H1 [H2 H3]]]].
+  apply labels_frame in H1, H3. destruct H1 as [S1 F1], H3 as [S3 F3].
+  assert (N1 : ~ In l L1).
+  { intros Hin. apply NoDup_remove_2 in Hnd. apply Hnd. apply in_or_app. left. exact Hin. }
+  assert (N2 : ~ In l L2).
+  { intros Hin. apply NoDup_remove_2 in Hnd. apply Hnd. apply in_or_app. right. exact Hin. }
+  exists ga, gb. split; auto. split; [|split; [exact H2|split; auto]].
+  - intros u v [A [Hu Hv]]. split; auto. destruct (edge_dec ga u v) as [Y|N]; auto. exfalso.
+    destruct (F1 u v A N) as [_ [_ [_ Hin]]]. apply cyc_of_In in Hu. destruct Hu as [_ Eu].
+    rewrite Eu in Hin. contradiction.
+  - intros u v [A [Hu Hv]]. split; auto. destruct (edge_dec h u v) as [Y|N]; auto. exfalso.
+    destruct (F3 u v A N) as [_ [_ [_ Hin]]]. apply cyc_of_In in Hu. destruct Hu as [_ Eu].
+    rewrite Eu in Hin. contradiction.
+Qed.
+
+(** * Strongly connected components *)
+
+(** Two nodes with the same label are joined by a walk that stays inside their component. *)
+Lemma scc_internal g comp u x :
+  wf_graph g -> components_contract g true comp -> u < length g -> x < length g ->
+  nthn comp u = nthn comp x ->
+  reach (Ein (cyc_of comp (nthn comp u)) g) u x.
+Proof.
+  intros Hwf [Hlen Hc] Hu Hx E. set (l := nthn comp u).
+  apply (Hc u x Hu Hx) in E. destruct E as [Rux Rxu].
+  assert (G : forall y, reach (edge g) y x -> reach (edge g) u y -> y < length g -> nthn comp y = l ->
+                        reach (Ein (cyc_of comp l) g) y x).
+  { clear Rux. intros y H. induction H as [y|y z x Hyz Hzx IH]; intros Huy Hy Ey; [apply reach_refl|].
+    assert (Hz : z < length g) by (eapply Hwf; eauto).
+    assert (Huz : reach (edge g) u z) by (eapply reach_step_right; eauto).
+    assert (Ez : nthn comp z = l).
+    { symmetry. apply (Hc u z Hu Hz). split; auto. eapply reach_trans; eauto. }
+    eapply reach_step; [|apply IH; auto].
+    split; auto. split; apply cyc_of_In; split; auto; lia. }
+  apply G; auto. apply reach_refl.
+Qed.
+
+(** * Breadth-first distances: every node has a hop distance or is unreachable *)
+Lemma bfs_dichotomy g src : length src = length g ->
+  exists dist, bfs g src = Some dist /\ length dist = length g /\
+    forall v, v < length g ->
+      (exists k, nthz dist v = Z.of_nat k /\ hop g src v k) \/ (forall k, ~ reachk g src k v).
+Proof.
+  intros Hs. unfold bfs. change 1%Z with (Z.of_nat (S 0)).
+  destruct (bfs_loop_inv g src (S (length g)) 0 src _ (inv_init g src Hs)) as [dist [r [rch [Hb [HI HE]]]]].
+  { pose proof (cf_le_length src). lia. }
+  exists dist. split; auto. split; [exact (inv_ld _ _ _ _ _ HI)|]. intros v Hv.
+  pose proof (inv_closed _ _ _ _ _ HI HE) as Hcl.
+  destruct (nthb rch v) eqn:E.
+  - left. exact (inv_dist_t _ _ _ _ _ HI v Hv E).
+  - right. intros k Hr. rewrite (Hcl k v Hr Hv) in E. discriminate.
+Qed.
+
+Lemma hop_pred g src v k : hop g src v (S k) -> exists y, hop g src y k /\ edge g y v.
+Proof.
+  intros [Hr Hmin]. simpl in Hr. destruct Hr as [y [Hy Hyv]]. exists y. split; auto. split; auto.
+  intros j Hj Hrj. apply (Hmin (S j)); [lia|]. simpl. exists y. auto.
+Qed.
+
+Lemma reach_drop_loops g u v : reach (edge g) u v -> reach (edge (drop_loops g)) u v.
+Proof.
+  intros H. induction H as [u|u x v Hux Hxv IH]; [apply reach_refl|].
+  destruct (Nat.eq_dec u x) as [E|E]; [subst; exact IH|].
+  eapply reach_step; [|exact IH]. apply drop_loops_edge. auto.
+Qed.
+
+(** * The directed loop on a loop-free graph [g0] *)
+
+Lemma dir_loop_acyclic g0 comp dist h :
+  wf_graph g0 -> (forall u, ~ edge g0 u u) -> components_contract g0 true comp ->
+  ofold (lstep comp dist) (labels_of comp) (Some g0) = Some h ->
+  forall c, ~ dcycle h c.
+Proof.
+  intros Hwf Hlf Hcc H c Hcy. pose proof Hcc as [Hlen Hc].
+  pose proof (labels_frame _ _ _ _ _ H) as [Sh _].
+  assert (Hcy0 : dcycle g0 c) by (eapply simple_cycle_ext; [|exact Hcy]; apply Sh).
+  destruct c as [|x [|y t]].
+  - destruct Hcy as [Hn _]. congruence.
+  - destruct Hcy0 as [_ [_ Hch]]. simpl in Hch. apply (Hlf x). tauto.
+  - destruct (long_cycle_same_label g0 comp x y t Hwf Hcc Hcy0) as [Hx [Hy [Hxy Exy]]].
+    set (l := nthn comp x).
+    assert (Hall : forall z, In z (x :: y :: t) -> In z (cyc_of comp l)).
+    { intros z Hz. destruct (simple_cycle_hd_reach _ _ z Hcy0 Hz) as [R1 R2]. cbn [hd] in R1, R2.
+      assert (Hzl : z < length g0) by exact (reach_lt g0 x z Hwf Hx R1).
+      apply cyc_of_In. split; [lia|]. symmetry. apply (Hc x z Hx Hzl). split; auto. }
+    assert (Hl : In l (labels_of comp)).
+    { apply labels_of_In. split; [apply nthn_In; lia|].
+      destruct (Nat.lt_trichotomy x y) as [L|[L|L]]; [|contradiction|].
+      - apply (count_two comp x y L); [lia | exact Exy].
+      - unfold l. rewrite Exy. apply (count_two comp y x L); [lia | symmetry; exact Exy]. }
+    destruct (labels_run_split comp dist _ g0 h l (labels_of_NoDup comp) Hl H) as [ga [gb [Sa [Ea [Hb [Shb _]]]]]].
+    apply (comp_acyclic ga comp dist l gb) with (c := x :: y :: t); auto.
+    + intros E. specialize (Hall x (or_introl eq_refl)). rewrite E in Hall. destruct Hall.
+    + intros s z Hs Hz. apply cyc_of_In in Hs, Hz. destruct Hs as [Hs Es], Hz as [Hz Ez].
+      eapply reach_mono; [exact Ea|]. rewrite <- Es.
+      apply scc_internal; auto; try lia; congruence.
+    + eapply simple_cycle_ext; [|exact Hcy]. apply Shb.
+Qed.
+
+Lemma dir_loop_reach g0 root comp dist h :
+  wf_graph g0 -> components_contract g0 true comp ->
+  bfs g0 (one_hot (length g0) root) = Some dist ->
+  ofold (lstep comp dist) (labels_of comp) (Some g0) = Some h ->
+  forall r v, In r root -> r < length g0 -> reach (edge g0) r v ->
+    exists r', In r' root /\ reach (edge h) r' v.
+Proof.
+  intros Hwf Hcc Hbfs H. pose proof Hcc as [Hlen Hc].
+  set (src := one_hot (length g0) root) in *.
+  destruct (bfs_dichotomy g0 src (one_hot_length _ _)) as [dist' [Hb' [Hld Hdist]]].
+  rewrite Hbfs in Hb'. inversion Hb'; subst dist'. clear Hb'.
+  pose proof (labels_frame _ _ _ _ _ H) as [Sh Fh].
+  assert (Hdist_eq : forall v k1 k2, hop g0 src v k1 -> nthz dist v = Z.of_nat k2 -> v < length g0 -> k1 = k2).
+  { intros v k1 k2 H1 H2 Hv. destruct (Hdist v Hv) as [[k [Ek Hk]]|Hno].
+    - rewrite (hop_unique _ _ _ _ _ H1 Hk). lia.
+    - exfalso. destruct H1 as [H1 _]. exact (Hno _ H1). }
+  assert (G : forall k v, v < length g0 -> hop g0 src v k -> reachS (edge h) (fun r => In r root) v).
+  { induction k as [k IH] using lt_wf_ind. intros v Hv Hhop. destruct k as [|k'].
+    - destruct Hhop as [Hr _]. simpl in Hr. unfold src in Hr. rewrite nthb_one_hot in Hr by exact Hv.
+      apply memn_In in Hr. exists v. split; auto. apply reach_refl.
+    - destruct (hop_pred _ _ _ _ Hhop) as [y [Hy Hyv]].
+      assert (Hyl : y < length g0) by (eapply row_nonempty_lt; eauto).
+      destruct (edge_dec h y v) as [Y|N].
+      + destruct (IH k' ltac:(lia) y Hyl Hy) as [r [Hr Rr]]. exists r. split; auto. eapply reach_step_right; eauto.
+      + destruct (Fh y v Hyv N) as [_ [_ [Eyv Hl]]]. set (l := nthn comp y) in *.
+        destruct (labels_run_split comp dist _ g0 h l (labels_of_NoDup comp) Hl H)
+          as [ga [gb [Sa [Ea [Hcomp [Shb Eb]]]]]].
+        assert (Hvc : In v (cyc_of comp l)) by (apply cyc_of_In; split; [lia | auto]).
+        assert (Hyc : In y (cyc_of comp l)) by (apply cyc_of_In; split; [lia | auto]).
+        (* some subroot reaches v inside the component, in the final graph *)
+        assert (Hsub : reachS (Ein (cyc_of comp l) h) (fun s => In s (subroots_of comp dist l)) v).
+        { destruct (comp_frame _ _ _ _ _ Hcomp) as [_ [_ Rc]].
+          eapply reachS_mono; [exact Eb|]. apply Rc. eapply reachS_mono; [exact Ea|].
+          assert (Hne : cyc_of comp l <> []) by (intros E; rewrite E in Hvc; destruct Hvc).
+          pose proof (subroots_nonempty comp dist l Hne) as Hsr.
+          destruct (subroots_of comp dist l) as [|s0 rest] eqn:Esr; [congruence|].
+          exists s0. split; [left; reflexivity|].
+          assert (Hs0 : In s0 (cyc_of comp l)) by (apply (subroots_cyc comp dist l); rewrite Esr; left; reflexivity).
+          apply cyc_of_In in Hs0. destruct Hs0 as [Hs0 Es0]. rewrite <- Es0.
+          apply scc_internal; auto; try lia; congruence. }
+        destruct Hsub as [s [Hs Rsv]].
+        assert (Rsv' : reach (edge h) s v) by (eapply reach_mono; [|exact Rsv]; intros a b [A _]; exact A).
+        pose proof (subroots_cyc _ _ _ _ Hs) as Hsc. apply cyc_of_In in Hsc. destruct Hsc as [Hsl Es].
+        (* the subroot is strictly closer to the roots than v *)
+        pose proof (subroots_min comp dist l s y Hs Hyc) as Hle.
+        assert (Hdy : nthz dist y = Z.of_nat k').
+        { destruct (Hdist y Hyl) as [[k [Ek Hk]]|Hno].
+          - rewrite (hop_unique _ _ _ _ _ Hy Hk). exact Ek.
+          - exfalso. destruct Hy as [Hy _]. exact (Hno _ Hy). }
+        destruct (Hdist s ltac:(lia)) as [[ks [Eks Hks]]|Hno].
+        * destruct (IH ks ltac:(lia) s ltac:(lia) Hks) as [r [Hr Rr]]. exists r. split; auto.
+          eapply reach_trans; eauto.
+        * exfalso.
+          assert (Rys : reach (edge g0) y s).
+          { assert (Hs' : sconn g0 y s) by (apply (proj1 (Hc y s Hyl ltac:(lia))); rewrite Es; reflexivity).
+            exact (proj1 Hs'). }
+          destruct (reach_reachk g0 src y s Rys) as [k Hk]; [exists k'; destruct Hy; auto|].
+          exact (Hno _ Hk). }
+  intros r v Hr Hrl Hrv.
+  assert (Hv : v < length g0) by (eapply reach_lt; eauto).
+  destruct (Hdist v Hv) as [[k [Ek Hk]]|Hno].
+  - exact (G k v Hv Hk).
+  - exfalso. destruct (reach_reachk g0 src r v Hrv) as [k Hk]; [|exact (Hno _ Hk)].
+    exists 0. simpl. unfold src. rewrite nthb_one_hot by exact Hrl. apply memn_In. exact Hr.
+Qed.
